@@ -1,5 +1,6 @@
 """C15 - weak-crypto and transport checks follow their decision tables."""
 import family
+import scancorr
 from oracles import c15
 
 PROP_FILES = ["theories/Props/C15.v", "theories/Inst/C15_inst.v"]
@@ -13,4 +14,4 @@ def run(R, replay=None):
               "names, curves, protocol constants, verify/timeout values, host-key policies, SNMP argument counts; scanned by the "
               "real bandit and by the Gallina plugin models; canonical shapes judged independently against the statement; "
               "non-trivial = at least one finding or internal error")
-    family.run_family(R, PROP_FILES, DEPS, ["gen.fam_crypto"], c15.oracle, "crypto family", max_quick=2500)
+    family.run_family(R, PROP_FILES, DEPS, ["gen.fam_crypto"], c15.oracle, "crypto family", max_quick=2500, eq=scancorr.FINDINGS_AND_ERRORS)
